@@ -122,6 +122,10 @@ pub struct W3Cfg {
     pub converge_by_us: i64,
     /// PHY model: stations are deaf while they transmit (see BusSim)
     pub deaf_phy: bool,
+    /// value of the stations' clock (`Instant`) at the start of the run, in microseconds: the bus runs
+    /// on its own time line, the stations are given origin + bus time (negative, about to cross zero,
+    /// about to cross a 32-bit boundary, weeks of uptime)
+    pub origin_us: i64,
 }
 
 impl W3Cfg {
@@ -130,7 +134,7 @@ impl W3Cfg {
             "stations": self.stations.iter().map(|s| json!({"addr": s.addr, "join_us": s.join_us, "div": s.div, "phase3": s.phase3, "load": format!("{:?}", s.load), "crash": s.crash.map(|(t, r)| json!([t, r]))})).collect::<Vec<_>>(),
             "hsa": self.hsa, "gap": self.gap, "ttr": self.ttr, "baud": self.baud, "slot_bits": self.slot_bits,
             "stalls": self.stalls, "faults": self.faults.iter().map(|(i, f)| json!([i, format!("{:?}", f)])).collect::<Vec<_>>(),
-            "responders": self.responders, "horizon_us": self.horizon_us, "converge_by_us": self.converge_by_us, "deaf_phy": self.deaf_phy,
+            "responders": self.responders, "horizon_us": self.horizon_us, "converge_by_us": self.converge_by_us, "deaf_phy": self.deaf_phy, "origin_us": self.origin_us,
         })
     }
     pub fn from_json(v: &Value) -> W3Cfg {
@@ -189,6 +193,7 @@ impl W3Cfg {
             horizon_us: v["horizon_us"].as_i64().unwrap(),
             converge_by_us: v["converge_by_us"].as_i64().unwrap(),
             deaf_phy: v["deaf_phy"].as_bool().unwrap_or(false),
+            origin_us: v["origin_us"].as_i64().unwrap_or(0),
         }
     }
     pub fn params(&self, addr: u8) -> profirust::fdl::Parameters {
@@ -275,6 +280,7 @@ impl W3Run {
         let slot = cfg.slot_us();
         let mut bus = BusSim::new(BAUDS[cfg.baud].1, n + 1);
         bus.deaf_while_transmitting = cfg.deaf_phy;
+        bus.origin_us = cfg.origin_us;
         bus.retire_port(n as u8);
         bus.faults = cfg.faults.clone();
         let mut stations = vec![];
@@ -417,7 +423,7 @@ impl W3Run {
         }
         let before_tx = self.bus.tx_count;
         let before_pending = self.bus.pending(i as u8, t);
-        let now = Instant::from_micros(t);
+        let now = Instant::from_micros(self.cfg.origin_us + t);
         let station = &mut self.stations[i];
         let app = &mut self.apps[i];
         let bus = &mut self.bus;
